@@ -1,7 +1,7 @@
 (* C07 -- property packages: order of the mixture models (always the package's own), and whether they evaluate the
    chemicals' CURRENT functors (only while no member's functors were rebuilt since the mixture was derived). *)
 From Coq Require Import List Bool Lia.
-From V Require Import C07.Gen_Packages C07.Packages.
+From V Require Import C07.Gen_Packages C07.Model C07.Gen_Rewire C07.Packages.
 Import ListNotations.
 
 Section Facts.
@@ -24,7 +24,13 @@ Section Facts.
 
   Lemma pstep_ordered s o : Forall ordered (snd s) -> Forall ordered (snd (pstep s o)).
   Proof.
-    destruct s as [st ps]. intros F. simpl in F. destruct o as [cs|i sel|i extra|i|f]; simpl.
+    assert (R : forall (rf : nat * option St -> nat * option St), (forall e, fst (rf e) = fst e) ->
+                forall ps, Forall ordered ps ->
+                Forall ordered (map (fun q => mkPkg (p_ideal q) (p_chems q) (map rf (p_models q))) ps)).
+    { intros rf Hrf ps0 F0. apply Forall_forall. intros p Hp. apply in_map_iff in Hp. destruct Hp as (q & <- & Hq).
+      rewrite Forall_forall in F0. specialize (F0 q Hq). unfold ordered in *. simpl. rewrite map_map.
+      rewrite <- F0. apply map_ext. exact Hrf. }
+    destruct s as [st ps]. intros F. simpl in F. destruct o as [cs|i sel|i extra|i|f|i ren g rb]; simpl.
     - apply Forall_app; split; [exact F|]. constructor; [apply build_ordered | constructor].
     - destruct (nth_error ps i) as [p|]; [|exact F]. simpl. apply Forall_app; split; [exact F|].
       constructor; [apply subset_ordered | constructor].
@@ -34,10 +40,14 @@ Section Facts.
       constructor; [|constructor].
       assert (A : ordered p) by (rewrite Forall_forall in F; apply F; eapply nth_error_In; eauto).
       destruct (p_ideal p); [exact A|]. unfold ideal_shares_chemicals_and_mixture. exact A.
-    - apply Forall_forall. intros p Hp. apply in_map_iff in Hp. destruct Hp as (q & <- & Hq).
-      rewrite Forall_forall in F. specialize (F q Hq). unfold ordered in *. simpl. rewrite map_map.
-      rewrite <- F. apply map_ext. intros e. destruct (snd e) as [s0|]; [|reflexivity].
+    - apply R; [|exact F]. intros e. destruct (snd e) as [s0|]; [|reflexivity].
       destruct (same (fst e) s0 st && same (fst e) st (f st)); reflexivity.
+    - destruct (nth_error ps i) as [p|] eqn:Hi; [|exact F]. simpl. apply Forall_app; split.
+      + apply R; [|exact F]. intros e. destruct (snd e) as [s0|]; [|reflexivity].
+        match goal with |- fst (if ?b then _ else _) = _ => destruct b; reflexivity end.
+      + constructor; [|constructor].
+        assert (A : ordered p) by (rewrite Forall_forall in F; apply F; eapply nth_error_In; eauto).
+        unfold ordered in *. simpl. rewrite map_map. simpl. rewrite <- A. rewrite map_map. reflexivity.
   Qed.
 
   Lemma packages_ordered st0 ops p : In p (snd (prun (st0, []) ops)) -> map fst (p_models p) = p_chems p.
@@ -58,36 +68,50 @@ Section Facts.
     destruct He as (c & <- & _). unfold entry_tracks. simpl. destruct mixture_models_live; first [exact I | apply same_refl].
   Qed.
 
-  Lemma pstep_tracking s o : no_chem St o -> Forall (tracking (fst s)) (snd s) ->
-    fst (pstep s o) = fst s /\ Forall (tracking (fst s)) (snd (pstep s o)).
+  Lemma pstep_tracking s o : no_chem St same o -> Forall (tracking (fst s)) (snd s) ->
+    Forall (tracking (fst (pstep s o))) (snd (pstep s o)).
   Proof.
-    destruct s as [st ps]. intros NC F. simpl in F. destruct o as [cs|i sel|i extra|i|f]; simpl; try contradiction.
-    - split; [reflexivity|]. apply Forall_app; split; [exact F|]. constructor; [apply build_tracking | constructor].
-    - destruct (nth_error ps i) as [p|]; [|split; [reflexivity | exact F]]. simpl. split; [reflexivity|].
+    destruct s as [st ps]. intros NC F. simpl in F. destruct o as [cs|i sel|i extra|i|f|i ren g rb]; simpl; try contradiction.
+    - apply Forall_app; split; [exact F|]. constructor; [apply build_tracking | constructor].
+    - destruct (nth_error ps i) as [p|]; [|exact F]. simpl.
       apply Forall_app; split; [exact F|]. constructor; [|constructor].
       unfold subset_of, IdealThermo_subset_rebuilds_mixture, Thermo_subset_rebuilds_mixture. destruct (p_ideal p); apply build_tracking.
-    - destruct (nth_error ps i) as [p|]; [|split; [reflexivity | exact F]]. simpl. split; [reflexivity|].
+    - destruct (nth_error ps i) as [p|]; [|exact F]. simpl.
       apply Forall_app; split; [exact F|]. constructor; [|constructor].
       unfold subset_of, IdealThermo_subset_rebuilds_mixture, Thermo_subset_rebuilds_mixture. destruct (p_ideal p); apply build_tracking.
-    - destruct (nth_error ps i) as [p|] eqn:Hi; [|split; [reflexivity | exact F]]. simpl. split; [reflexivity|].
+    - destruct (nth_error ps i) as [p|] eqn:Hi; [|exact F]. simpl.
       apply Forall_app; split; [exact F|]. constructor; [|constructor].
       assert (A : tracking st p) by (rewrite Forall_forall in F; apply F; eapply nth_error_In; eauto).
       destruct (p_ideal p); [exact A|]. unfold ideal_shares_chemicals_and_mixture. exact A.
+    - (* pickle round trip: unpickle_chemical keeps the pickled functor objects (generated) *)
+      destruct NC as [K1 K2].
+      destruct (nth_error ps i) as [p|] eqn:Hi; [|exact F].
+      unfold unpickle_rebuilds_functors. simpl. apply Forall_app; split.
+      + apply Forall_forall. intros q' Hq. apply in_map_iff in Hq. destruct Hq as (q & <- & Hq).
+        rewrite Forall_forall in F. specialize (F q Hq). unfold tracking in *. simpl.
+        apply Forall_forall. intros e' He. apply in_map_iff in He. destruct He as (e & <- & He).
+        rewrite Forall_forall in F. specialize (F e He). unfold entry_tracks in *.
+        destruct (snd e) as [s0|] eqn:Es; [|rewrite Es; exact I].
+        destruct (same (fst e) s0 st && same (fst e) st (g st)); simpl.
+        * apply same_refl.
+        * rewrite Es. apply K1. exact F.
+      + constructor; [|constructor].
+        assert (A : tracking st p) by (rewrite Forall_forall in F; apply F; eapply nth_error_In; eauto).
+        unfold tracking in *. simpl. apply Forall_forall. intros e' He. apply in_map_iff in He. destruct He as (e & <- & He).
+        rewrite Forall_forall in A. specialize (A e He). unfold entry_tracks in *. simpl.
+        destruct (snd e) as [s0|]; simpl; [|exact I]. apply K2. exact A.
   Qed.
 
   Lemma packages_track_without_chemical_changes st0 ops p :
-    Forall (no_chem St) ops -> In p (snd (prun (st0, []) ops)) ->
+    Forall (no_chem St same) ops -> In p (snd (prun (st0, []) ops)) ->
     Forall (entry_tracks St same (fst (prun (st0, []) ops))) (p_models p).
   Proof.
-    assert (G : forall ops s, Forall (no_chem St) ops -> Forall (tracking (fst s)) (snd s) ->
-                fst (prun s ops) = fst s /\ Forall (tracking (fst s)) (snd (prun s ops))).
-    { induction ops0 as [|o ops0 IH]; intros s NC F; simpl; [split; [reflexivity | exact F]|].
-      inversion NC as [|? ? No NC']; subst.
-      destruct (pstep_tracking s o No F) as [E F'].
-      destruct (IH (pstep s o) NC') as [E2 F2]; [rewrite E; exact F'|].
-      split; [rewrite E2; exact E | rewrite <- E; exact F2]. }
-    intros NC Hin. destruct (G ops (st0, []) NC (Forall_nil _)) as [E F].
-    rewrite E. rewrite Forall_forall in F. exact (F p Hin).
+    assert (G : forall ops s, Forall (no_chem St same) ops -> Forall (tracking (fst s)) (snd s) ->
+                Forall (tracking (fst (prun s ops))) (snd (prun s ops))).
+    { induction ops0 as [|o ops0 IH]; intros s NC F; simpl; [exact F|].
+      inversion NC as [|? ? No NC']; subst. apply IH; [exact NC'|]. apply pstep_tracking; assumption. }
+    intros NC Hin. pose proof (G ops (st0, []) NC (Forall_nil _)) as F.
+    rewrite Forall_forall in F. exact (F p Hin).
   Qed.
 End Facts.
 
